@@ -6,6 +6,8 @@ A rule is {"fn": "replace"|"unlink"|"scandir"|"tempfile", "k": n, "when": "befor
 or {"fn": "slow_loop_close", "seconds": s}: the event loop takes s seconds longer between its last iteration and its close (a slow
 machine at that instant; worker threads that ask the loop for something in that window are the schedule of interest),
 or {"fn": "slow_read", "seconds": s}: every whole-file read inside the repository takes s seconds longer (a slow disk),
+or {"fn": "slow_io", "seconds": s}: every object creation inside the repository takes s seconds longer (a slow backend: uploads are
+slower than chunking, the pipeline between them fills up),
 or {"fn": "slow_submit", "seconds": s}: a worker thread is descheduled for s seconds right before it hands a coroutine to the loop.
 Only calls whose (first or second) path argument lies under VERIF_INJECT_ROOT are counted.  "kill" is a real
 SIGKILL of this process (no clean-up code, no buffered data flushed); an errno name raises OSError(errno) once.
@@ -57,7 +59,17 @@ def _install(rules, root):
                     time.sleep(_wait)
                 return _orig(coro, loop)
             asyncio.run_coroutine_threadsafe = slow_submit
-    rules = [r for r in rules if r['fn'] not in ('slow_loop_close', 'slow_read', 'slow_submit')]
+        if r['fn'] == 'slow_io':
+            import time
+            orig_replace = os.replace
+            nap = r['seconds']
+
+            def slow_replace(*a, _orig=orig_replace, _nap=nap, **k):
+                if any(under(x) for x in a[:2]):
+                    time.sleep(_nap)
+                return _orig(*a, **k)
+            os.replace = slow_replace
+    rules = [r for r in rules if r['fn'] not in ('slow_loop_close', 'slow_read', 'slow_submit', 'slow_io')]
 
     def under(p):
         try:
